@@ -679,6 +679,7 @@ func checkC19(c *Ctx) {
 	R.Assumptions = []string{"encoding/json implements RFC 8259 for Go maps, slices, strings, float64, bool, nil"}
 	u := c.Core()
 	u.buildSSA()
+	ruleDictEqByContent(c, u, "C19.eqcontent")
 	ruleDictNeverThroughGoMap(c, u, "C19.order", true)
 	ruleDictNeverThroughGoMap(c, u, "C19.order", false)
 
